@@ -186,6 +186,21 @@ def explore(run, tier):
             codec = rng.choice(iu.CODECS)
             m, e = iu.gen_message(rng, cfg, codec)
             cases.append(mk(cfg, codec, rng.randrange(2), m, e))
+    # typed values (numbers, decimals, dates) in VARIABLE-length elements, with and without a configured nominal length
+    for ft in ('LLVAR', 'LLLVAR'):
+        for fl in (0, 12):
+            for pyt in ('int', 'long', 'decimal', 'datetime'):
+                fc = {'field_name': 'typed', 'field_type': ft, 'field_length': fl, 'field_python_type': pyt}
+                fmts = [f for f, _ in iu.DATE_FORMATS] if pyt == 'datetime' else [None]
+                for fmt in fmts:
+                    if fmt:
+                        fc = dict(fc, field_date_format=fmt)
+                    cfg = {'3': {'field_name': 'proc', 'field_type': 'FIXED', 'field_length': 6}, '5': fc,
+                           '9': {'field_name': 'tail', 'field_type': 'LLVAR', 'field_length': 0}}
+                    for _ in range(4 if tier == 'quick' else 40):
+                        codec = rng.choice(codecs3)
+                        m, e = iu.gen_message(rng, cfg, codec, bits=[3, 5, 9], with_pds=False)
+                        cases.append(mk(cfg, codec, rng.randrange(2), m, e))
     # configuration HISTORIES: the library is used with configuration A, then the same object is edited in place (or deep-
     # copied and edited) into B, and used again — nothing of A may survive (caches keyed by object identity, memos
     # stored on the configuration entries)
